@@ -8,7 +8,7 @@ SPEC = {
         'C31_hex_key_total', 'C31_listed_is_blocked',
         'C31_core_covers_positions', 'C31_blocked_position_rejected', 'C31_blocked_position_rejected_refuted',
         'C31_blocked_position_rejected_partial', 'C31_pool_rejects_at_every_height_refuted',
-        'C31_pool_rejects_at_every_height_partial', 'C31_delay_group_refuted', 'C31_executor_outer_refuted',
+        'C31_pool_rejects_at_every_height_partial', 'C31_delay_entry_all_members', 'C31_executor_outer_refuted',
         'C31_proxy_inner_rejected_by_executor', 'C31_gate_exact', 'C31_inactive_no_effect', 'C31_rejection_sound',
         'C31_proxy_inner_before_fork_witness', 'C31_height0_hypothesis_needed',
         'C31_verdict_history_independent', 'C31_verdict_history_independent_nth', 'C31_history_blocked_rejected',
@@ -36,7 +36,7 @@ SPEC = {
             '(exported predicates with the coins executor type bound to a para-chain configuration so that the real '
             'recipient differs from To); "hist-*" + hand-written "w-hist-*" (histories of ONE process, case CHist: one '
             'transaction body with a fixed nonce - coins transfer / none / evm-named with ContractAddr, alone or as second '
-            'member of a 2-group - is signed by 2-3 accounts out of 5 funded ones and one unfunded one, so all copies have the '
+            'member of a 2-group (groups are asked at the delay entry points as well) - is signed by 2-3 accounts out of 5 funded ones and one unfunded one, so all copies have the '
             'same Transaction.Hash() and differ in the sender only; the history is a sequence of blacklist loads and of asks '
             '(signer, height, enforcement point in {exported predicates, EventExecTxList, AddTxsToBlock, EventTx, '
             'EventAddDelayTx, delayed transaction in a block}); the blacklist is loaded ONLY where the history says so (the '
@@ -86,11 +86,12 @@ SPEC = {
         'AddTxsToBlock is observed far below the block size / count limits (those are property C30)',
     ],
     'manifest': {
-        'level_text': 'full for plain (not proxied) transactions and groups at executor, producer and pool, and for single '
-                      'transactions at the delay entry points, in every accepted spelling (unbounded proofs over all blacklists, '
-                      'transactions, heights; hex spelling clause proved, base58 clause = literal identity); partial for '
-                      'proxy-exec transactions (pool/producer/delay look at the outer transaction only: open finding C31-F1; the '
-                      'executor looks at the inner transaction only: C31-F3) and for delayed groups (head only: C31-F2)',
+        'level_text': 'full for plain (not proxied) transactions and groups at executor, producer, pool and both delay entry '
+                      'points, in every accepted spelling (unbounded proofs over all blacklists, transactions, heights; hex '
+                      'spelling clause proved, base58 clause = literal identity); partial for proxy-exec transactions '
+                      '(pool/producer/delay look at the outer transaction only: open finding C31-F1; the executor looks at the '
+                      'inner transaction only: C31-F3). Finding C31-F2 (delayed groups: head only) is repaired in the code: the '
+                      'delay entry points expand a group and check every member (C31_delay_entry_all_members)',
         'level_note': 'model = Gallina transcription of account_blacklist.go (hex/base58 parsing down to characters, set, core '
                       'check, gate), GetRealExecName, and the wiring of the five enforcement points; SHA-256, protobuf decoding, '
                       'address derivation and all non-blacklist validity checks are inputs (facts / baseline observables); the '
